@@ -14,6 +14,8 @@ Four exhaustively enumerated spaces, all on the real implementation:
              the run on fresh objects (histories of length 4, both orders).
  J  joint    several different lazy simulations are evaluated in ONE dask graph - every subset of a member list - and each must equal
              the result it gives on its own (dask key collisions, shared layers).
+ P  preempt  ONE preemption inside a task: a fused multislice block is parked at its k-th call into abTEM code (sys.settrace), another ready
+             block runs to completion, the first resumes; every k (thorough) / a uniform stride (quick), both roles (mc/preempt.py).
  D  threads  (race detector only, sampling, never the deciding step) the same graphs free-running on dask's threaded
              scheduler, 3 repetitions, compared with the synchronous result.
 """
@@ -68,7 +70,7 @@ def check(ctx):
     sc = []
     if q:
         combos = [(p, ep, d, "custom", mb) for p in ("fp2", "fp3") for ep in (None, 1) for d in ("waves", "pix") for mb in (1, 2)]
-        combos += [("fp2", None, "multi", "custom", 2), ("crystal_fp", None, "seg", "custom", 1), ("atoms", 1, "annular", "grid", 2),
+        combos += [("fp2", None, "multi", "custom", 2), ("crystal_fp", None, "seg", "custom", 1), ("crystal", None, "pix", "custom", 1), ("crystal", 1, "annular", "grid", 2), ("atoms", 1, "annular", "grid", 2),
                    ("fp2mean", None, "annular", "custom", 1), ("ae2", 1, "annular", "custom", 1), ("fp2", None, "flex", "grid", 2)]
     else:
         combos = [x for x in itertools.product(["fp2", "fp3", "fp2mean", "ae2", "crystal_fp", "atoms", "array"], [None, 1],
@@ -96,6 +98,17 @@ def check(ctx):
     # J: several lazy simulations evaluated in ONE dask graph (every subset of a member list): each must give what it gives on its own
     J = [{"members": m} for m in JOINT_SETS[: (2 if q else len(JOINT_SETS))]]
     ctx.run(J, "run_joint", batch=1, rule="J: all subsets (size >= 2) of 5-6 different lazy simulations computed in one dask.compute call vs each on its own", space="J joint graphs")
+    # P: ONE preemption inside a task: a fused multislice block is parked at its k-th call into abTEM code, a second ready block runs to
+    # completion, the first resumes (both roles).  thorough: EVERY call event k; quick: a uniform stride of the call events (reported as a cap)
+    PSIMS = [("crystal", None, "pix", "custom", 1), ("fp2", None, "waves", "custom", 1), ("atoms", 1, "annular", "grid", 2), ("crystal_fp", None, "seg", "custom", 1)]
+    nchunks = 8 if q else 32
+    PC = [{"space": "P", "p": p, "ep": ep, "d": d, "s": s_, "mb": mb, "chunk": [ci, nchunks], "max_points": 40 if q else None}
+          for (p, ep, d, s_, mb) in (PSIMS[:2] if q else PSIMS) for ci in range(nchunks)]
+    pres = ctx.run(PC, "run_preempt", batch=1, rule="P: single preemption of one fused block by another at every abTEM call event (thorough) / a uniform stride of them (quick)", space="P preemption")
+    ctx.extra["preemption_points_run"] = sum(r.get("tr", 0) for r in pres)
+    ctx.extra["preemption_call_events_per_task"] = sorted({str(r.get("calls")) for r in pres})
+    if q:
+        ctx.cap("space P (quick): a uniform stride of the call events of each task is used as preemption points; the thorough tier runs every call event")
     # D: free-running threads (detector only)
     th = [dict(c, reps=3) for c in sc if c["mb"] == 1 and c["ep"] is None][: (6 if q else 40)]
     ctx.run(th, "run_threads", batch=1, rule="D: free-running threaded scheduler x3 vs synchronous (race detector, sampling)", space="D threads")
@@ -240,9 +253,33 @@ def run_schedules(c):
         viol.append({"key": "schedule/differs-from-synchronous", "msg": "controlled schedules differ from dask's synchronous scheduler (%s)" % (c,)})
     if r["mutations"]:
         viol.append({"key": "schedule/task-mutates-shared-input", "msg": "tasks changed inputs that other tasks read: %r (%s)" % (r["mutations"][:3], c)})
-    return {"viol": viol, "obs": "%d heavy/%d tasks, %d schedules, %s" % (r["heavy"], r["tasks"], r["runs"], "all %s linear extensions" % r["linear_extensions"] if r["exhaustive"] else
+    notes = ["tasks filled memoisation caches of shared objects (additions only): %s" % sorted({str(m[1][0])[:120] for m in r.get("memo_fills", [])})[:2]] if r.get("memo_fills") else []
+    return {"notes": notes, "viol": viol, "obs": "%d heavy/%d tasks, %d schedules, %s" % (r["heavy"], r["tasks"], r["runs"], "all %s linear extensions" % r["linear_extensions"] if r["exhaustive"] else
                                                                        "all with <=%s deviations %r%s" % (r["bound"], r["level_sizes"], (", level %(deviations)d (%(schedules)d schedules) over budget" % r["skipped_level"]) if r["skipped_level"] else "")),
             "nt": r["heavy"] >= 2, "tr": r["runs"], "st": r["runs"], "ref": r["runs"], "exhaustive": r["exhaustive"], "bound": r["bound"]}
+
+
+# --------------------------------------------------------------------------------------------- P
+def run_preempt(c):
+    import dask
+    from mc import preempt as PR
+    from mc import universe as U
+    from mc.compare import err
+
+    def same(a, b):
+        return len(a) == len(b) and all(x.shape == y.shape and err(x, y, RTOL_SAME, atol=1e-30) <= 1.0 for x, y in zip(a, b))
+
+    def execute(get):
+        b = U.builder("probe")
+        out = b.multislice(U.potential(c["p"], c["ep"]), scan=U.scan(c["s"]), detectors=U.detector(c["d"]), lazy=True, max_batch=c["mb"])
+        outs = out if isinstance(out, list) else [out]
+        return [np.asarray(a) for a in dask.compute(*[o.array for o in outs], scheduler=get)]
+
+    r = PR.explore_pair(execute, same, max_points=c["max_points"], match="_extract_blockwise", chunk=tuple(c["chunk"]))
+    viol = []
+    if r["deviating"]:
+        viol.append({"key": "preemption/result-depends-on-interleaving", "msg": "preempting one multislice block by another at call events %r changes the result (%s)" % (r["deviating"][:3], c)})
+    return {"viol": viol, "obs": "pair %r calls %r" % (r.get("pair"), r.get("calls")), "nt": bool(r.get("pair")), "tr": r["runs"], "st": r["runs"], "ref": r["runs"], "calls": r.get("calls")}
 
 
 # --------------------------------------------------------------------------------------------- R
